@@ -65,9 +65,26 @@ def card(h, s):
     return z3.ToReal(bset(h, s).card)
 
 
+# math.inf is an opaque distinguished real (core.INF); a finite count is compared with a total that may be
+# infinite by case distinction, never by the numeric value the solver happens to pick for INF
+def lt_total(x, tot):
+    return z3.Or(tot == INF, x < tot)
+
+
+def le_total(x, tot):
+    """`x <= tot` for an integer count x and a total that is an integer or +inf (P0), written in the literal form of
+    the property -- "the last token was handed out while one was free": x - 1 < tot.  The two are the same for
+    integral operands (lemma unit IntegralLemma below); z3 does not decide the mixed Int/Real form with IsInt."""
+    return z3.Or(tot == INF, x - 1 < tot)
+
+
+def ge_total(x, tot):
+    return z3.And(tot != INF, x >= tot)
+
+
 @LIM.assume("wf_containers")
 def _(h, s, cur):
-    return z3.And(h.f(C, "_borrowers", s) > 0, h.f(C, "_wait_queue", s) > 0, bset(h, s).wf(), wq(h, s).wf(), card(h, s) < INF, NEG_INF < 0, 0 < INF, z3.Not(z3.Select(wp(h, s), 0)))
+    return z3.And(h.f(C, "_borrowers", s) > 0, h.f(C, "_wait_queue", s) > 0, bset(h, s).wf(), wq(h, s).wf(), NEG_INF < 0, 0 < INF, z3.Not(z3.Select(wp(h, s), 0)))
 
 
 @LIM.assume("memory_safety_queued_events_are_allocated")
@@ -78,7 +95,7 @@ def _(h, s, cur):
 
 @LIM.invariant("P0_total_is_nonnegative")
 def _(h, s, cur):
-    return z3.And(total(h, s) >= 0, total(h, s) != NEG_INF, z3.Or(total(h, s) == INF, z3.IsInt(total(h, s))))
+    return z3.And(total(h, s) != NEG_INF, z3.Or(total(h, s) == INF, z3.And(z3.IsInt(total(h, s)), total(h, s) >= 0, total(h, s) < INF)))
 
 
 @LIM.invariant("P1a_queued_waiter_is_a_record_unset_and_not_a_borrower")
@@ -106,7 +123,7 @@ def _(h, s, cur):
 
 @LIM.invariant("P2_no_lost_wakeup_waiters_only_when_exhausted")
 def _(h, s, cur):
-    return z3.Implies(wq(h, s).len > 0, card(h, s) >= total(h, s))
+    return z3.Implies(wq(h, s).len > 0, ge_total(card(h, s), total(h, s)))
 
 
 # ------------------------------------------------------------------ helpers
@@ -163,7 +180,7 @@ def inv_post(post, a):
 
 
 def can_grant(h, s):
-    return z3.And(wq(h, s).len > 0, card(h, s) < total(h, s))
+    return z3.And(wq(h, s).len > 0, lt_total(card(h, s), total(h, s)))
 
 
 NOTIFY = Contract(
@@ -176,7 +193,7 @@ NOTIFY = Contract(
             ensures=lambda pre, post, a, ret: [
                 ("first_waiter_granted", first_waiter_granted(pre, post, a.self, bset(pre, a.self).mem, bset(pre, a.self).card)),
                 ("total_unchanged", total(pre, a.self) == total(post, a.self)),
-                ("granted_only_when_free", card(post, a.self) <= total(post, a.self)),
+                ("granted_only_when_free", le_total(card(post, a.self), total(post, a.self))),
             ],
         ),
         Case("nothing", when=lambda pre, a: z3.Not(can_grant(pre, a.self)), ensures=lambda pre, post, a, ret: [("unchanged", unchanged(pre, post, a.self))]),
@@ -192,16 +209,16 @@ ACQ_NOWAIT_OBO = Contract(
         Case("double_borrow", when=lambda pre, a: bset(pre, a.self).has(a.b), raises="RuntimeError", ensures=lambda pre, post, a, ret: [("unchanged", unchanged(pre, post, a.self))]),
         Case(
             "would_block",
-            when=lambda pre, a: z3.And(z3.Not(bset(pre, a.self).has(a.b)), z3.Or(wq(pre, a.self).len > 0, card(pre, a.self) >= total(pre, a.self))),
+            when=lambda pre, a: z3.And(z3.Not(bset(pre, a.self).has(a.b)), z3.Or(wq(pre, a.self).len > 0, ge_total(card(pre, a.self), total(pre, a.self)))),
             raises="WouldBlock",
             ensures=lambda pre, post, a, ret: [("unchanged", unchanged(pre, post, a.self))],
         ),
         Case(
             "granted",
-            when=lambda pre, a: z3.And(z3.Not(bset(pre, a.self).has(a.b)), wq(pre, a.self).len == 0, card(pre, a.self) < total(pre, a.self)),
+            when=lambda pre, a: z3.And(z3.Not(bset(pre, a.self).has(a.b)), wq(pre, a.self).len == 0, lt_total(card(pre, a.self), total(pre, a.self))),
             ensures=lambda pre, post, a, ret: [
                 ("borrower_added", z3.And(bset(post, a.self).mem == z3.Store(bset(pre, a.self).mem, a.b, True), bset(post, a.self).card == bset(pre, a.self).card + 1)),
-                ("granted_only_when_free_and_nobody_waits", z3.And(card(post, a.self) <= total(post, a.self), wq(pre, a.self).len == 0)),
+                ("granted_only_when_free_and_nobody_waits", z3.And(le_total(card(post, a.self), total(post, a.self)), wq(pre, a.self).len == 0)),
                 ("rest_unchanged", z3.And(total(pre, a.self) == total(post, a.self), same_queue(pre, post, a.self), same_events(pre, post), pre.f(C, "_borrowers", a.self) == post.f(C, "_borrowers", a.self))),
             ],
         ),
@@ -218,16 +235,22 @@ def no_inflight_grant_for(h, s, b):
     return z3.ForAll([ev], z3.Implies(z3.And(z3.Select(wp(h, s), ev), flag(h, ev)), z3.Select(wb(h, s), ev) != b), patterns=[z3.Select(wp(h, s), ev)])
 
 
+def not_already_waiting(h, s, b):
+    """precondition of acquire_on_behalf_of (A-borrower, from the call sites): one borrower identity is used by at
+    most one acquire at a time -- it is not the key of a queued waiter"""
+    return z3.Not(wq(h, s).has(b))
+
+
 def release_post(pre, post, a, ret):
     s = a.self
     mem1 = z3.Store(bset(pre, s).mem, a.b, False)
     card1 = bset(pre, s).card - 1
-    grant = z3.And(wq(pre, s).len > 0, z3.ToReal(card1) < total(pre, s))
+    grant = z3.And(wq(pre, s).len > 0, lt_total(z3.ToReal(card1), total(pre, s)))
     no_grant = z3.And(bset(post, s).mem == mem1, bset(post, s).card == card1, same_queue(pre, post, s), same_events(pre, post))
     return [
         ("token_returned_then_first_waiter_served", z3.If(grant, first_waiter_granted(pre, post, s, mem1, card1), no_grant)),
         ("total_unchanged", total(pre, s) == total(post, s)),
-        ("granted_only_when_free", z3.Implies(grant, card(post, s) <= total(post, s))),
+        ("granted_only_when_free", z3.Implies(grant, le_total(card(post, s), total(post, s)))),
     ] + inv_post(post, a)
 
 
@@ -256,7 +279,7 @@ def lim_guarantee(a, b, s, t):
     ev = z3.Int(a.st.uniq("ev"))
     al = a.arr("$", "alloc")
     return [
-        ("Q1_grant_only_when_free", z3.Implies(card(b, s) > card(a, s), card(b, s) <= total(b, s))),
+        ("Q1_grant_only_when_free", z3.Implies(card(b, s) > card(a, s), le_total(card(b, s), total(b, s)))),
         ("set_events_stay_set", z3.ForAll([ev], z3.Implies(z3.And(z3.Select(al, ev), flag(a, ev)), flag(b, ev)), patterns=[flag(b, ev)])),
     ]
 
@@ -334,7 +357,9 @@ def symbolic_number(ip):
     """an argument of type `float`: an int, +inf, -inf or another (finite, non-integral) float"""
     k = ip.ctx.decide(4, "value-kind")
     if k == 0:
-        return Sym(z3.Int("value_int"), INT)
+        v = Sym(z3.Int("value_int"), INT)
+        ip.st.assume(z3.And(NEG_INF < z3.ToReal(v.t), z3.ToReal(v.t) < INF))  # an int is finite
+        return v
     if k == 1:
         return float("inf")
     if k == 2:
@@ -350,14 +375,38 @@ def setter_loop_inv(ip, env):
     h = H(ip.st)
     s = u.self_val.t
     out = [(n, t) for n, t in LIM.inv_terms(h, s, ip.ctx.cur.t) if not n.startswith("P2")]
-    out.append(("Q1_no_over_grant_so_far", z3.Implies(card(h, s) > card(u.seg, s), card(h, s) <= total(h, s))))
+    out.append(("Q1_no_over_grant_so_far", z3.Implies(card(h, s) > card(u.seg, s), le_total(card(h, s), total(h, s)))))
     out.append(("total_is_the_new_value", total(h, s) == u.new_total))
     ev = z3.Int(ip.st.uniq("ev"))
     out.append(("set_events_stay_set", z3.ForAll([ev], z3.Implies(z3.And(z3.Select(u.seg.arr("$", "alloc"), ev), flag(u.seg, ev)), flag(h, ev)), patterns=[flag(h, ev)])))
+    # two-state, against the loop entry: the queue is only consumed from its head, one new borrower per popped waiter
+    e = ip.ctx.loop_entry
+    qe, qh = wq(e, s), wq(h, s)
+    out.append(
+        (
+            "one_borrower_per_popped_waiter",
+            z3.And(
+                e.f(C, "_wait_queue", s) == h.f(C, "_wait_queue", s),
+                e.f(C, "_borrowers", s) == h.f(C, "_borrowers", s),
+                qh.hi == qe.hi,
+                qh.lo >= qe.lo,
+                qh.lo <= qh.hi,
+                bset(h, s).card - bset(e, s).card == qh.lo - qe.lo,
+            ),
+        )
+    )
     return out
 
 
-SETTER_LOOPS = {("CapacityLimiter.total_tokens.setter", 0): LoopSpec(setter_loop_inv, modifies={(QC, "lo"), (QC, "has"), (SC, "mem"), (SC, "card"), ("AEvent", "flag")}, local_types={"waiters_to_notify": REAL})}
+def setter_after_havoc(ip, env):
+    """container well-formedness (model facts, E7) is re-assumed for the havocked loop state"""
+    u = ip.ctx.unit
+    h = H(ip.st)
+    for n, t in LIM.assumed_terms(h, u.self_val.t, ip.ctx.cur.t):
+        ip.st.assume(t)
+
+
+SETTER_LOOPS = {("CapacityLimiter.total_tokens.setter", 0): LoopSpec(setter_loop_inv, after_havoc=setter_after_havoc, modifies={(QC, "lo"), (QC, "has"), (SC, "mem"), (SC, "card"), ("AEvent", "flag")}, local_types={"waiters_to_notify": REAL})}
 InitUnit.loops = SETTER_LOOPS
 InitUnit.contracts = {"CapacityLimiter._notify_next_waiter": NOTIFY}
 
@@ -423,7 +472,7 @@ class NotifyUnit(LimUnit):
         pre = self.seg
         ip.ctx.oblige(
             f"{self.qualname}{site}/inv:P2_restored_after_one_returned_token",
-            z3.Implies(z3.Implies(wq(pre, s).len > 0, card(pre, s) + 1 >= total(pre, s)), z3.Implies(wq(h, s).len > 0, card(h, s) >= total(h, s))),
+            z3.Implies(z3.Implies(wq(pre, s).len > 0, ge_total(card(pre, s) + 1, total(pre, s))), z3.Implies(wq(h, s).len > 0, ge_total(card(h, s), total(h, s)))),
             "inv",
         )
 
@@ -448,7 +497,7 @@ class AcquireOboUnit(BorrowerUnit):
     }
     contract = Contract(
         "CapacityLimiter.acquire_on_behalf_of",
-        requires=lambda h, a: [("A_borrower_no_inflight_grant", no_inflight_grant_for(h, a.self, a.b))],
+        requires=lambda h, a: [("A_borrower_no_inflight_grant", no_inflight_grant_for(h, a.self, a.b)), ("A_borrower_not_already_waiting", not_already_waiting(h, a.self, a.b))],
         cases=[
             Case("acquired", when=lambda pre, a: True, ensures=lambda pre, post, a, ret: [("borrower_holds_a_token", bset(post, a.self).has(a.b))]),
             Case("double_borrow", when=lambda pre, a: bset(pre, a.self).has(a.b), raises="RuntimeError", ensures=lambda pre, post, a, ret: [("unchanged", unchanged(pre, post, a.self))]),
@@ -481,7 +530,7 @@ class AcqNowaitUnit(LimUnit):
         "CapacityLimiter.acquire_nowait",
         requires=lambda h, a: [],
         cases=[
-            Case("granted", when=lambda pre, a: True, ensures=lambda pre, post, a, ret: [("current_task_borrows", bset(post, a.self).has(a.cur)), ("only_when_free", card(post, a.self) <= total(post, a.self))]),
+            Case("granted", when=lambda pre, a: True, ensures=lambda pre, post, a, ret: [("current_task_borrows", bset(post, a.self).has(a.cur)), ("only_when_free", le_total(card(post, a.self), total(post, a.self)))]),
             Case("double_borrow", when=lambda pre, a: bset(pre, a.self).has(a.cur), raises="RuntimeError", ensures=lambda pre, post, a, ret: [("unchanged", unchanged(pre, post, a.self))]),
             Case("would_block", when=lambda pre, a: True, raises="WouldBlock", ensures=lambda pre, post, a, ret: [("unchanged", unchanged(pre, post, a.self))]),
         ],
@@ -533,4 +582,15 @@ class EnvNothing(LemmaUnit):
         ip.ctx.oblige(f"{self.name}/env:no_state_change", z3.BoolVal(True), "env")
 
 
-UNITS = [InitUnit, SetterUnit, NotifyUnit, AcqNowaitOboUnit, ReleaseOboUnit, AcquireOboUnit, ReleaseUnit, AcqNowaitUnit, BorrowedUnit, AvailableUnit, TotalGetterUnit]
+class IntegralLemma(LemmaUnit):
+    """le_total's strict form is `<=` on integral operands (P0 proves the total integral or infinite)."""
+
+    props = ("C10",)
+    name = "CapacityLimiter/lemma:le_total_is_leq_on_integers"
+
+    def lemma(self, ip):
+        c, n = z3.Int("c"), z3.Int("n")
+        ip.ctx.oblige(f"{self.name}/lemma:strict_form_equals_leq", (z3.ToReal(c) - 1 < z3.ToReal(n)) == (c <= n), "lemma")
+
+
+UNITS = [IntegralLemma, InitUnit, SetterUnit, NotifyUnit, AcqNowaitOboUnit, ReleaseOboUnit, AcquireOboUnit, ReleaseUnit, AcqNowaitUnit, BorrowedUnit, AvailableUnit, TotalGetterUnit]
